@@ -104,6 +104,13 @@ static const struct script *cur_script;
 static int d_id, d_priv, d_self_ok, d_res[NSCRIPT];	/* what the dispatched body observed */
 static int id_of(fibre_t *f) { for (int i = 0; i < NF; i++) if (f == &fib[i]) return i; return -1; }
 
+/* the kind of the nested call may be fixed per query (SCRIPT_OP) so that cbmc does not expand every kind at every site */
+#ifdef SCRIPT_OP
+#define SOP(s, i) SCRIPT_OP
+#else
+#define SOP(s, i) ((s)->op[i])
+#endif
+
 static int body(fibre_t *f)
 {
 	const struct script *s = cur_script;
@@ -112,7 +119,7 @@ static int body(fibre_t *f)
 	d_self_ok = fibre_self() == f;
 	for (int i = 0; i < NSCRIPT; i++) if (i < s->n) {
 		fibre_t *g = &fib[s->g[i]];
-		switch (s->op[i]) {
+		switch (SOP(s, i)) {
 		case S_RUN: fibre_run(g); d_res[i] = 0; break;
 		case S_RUN_ATOMIC: d_res[i] = fibre_run_atomic(g); break;
 		case S_KILL: d_res[i] = fibre_kill(g); break;
@@ -130,11 +137,14 @@ static void constrain_script(const struct script *s)
 	int unsat = 0;
 	for (int i = 0; i < NSCRIPT; i++) {
 		__CPROVER_assume(s->op[i] < NSOPS && s->g[i] < NF);
+#ifdef SCRIPT_OP
+		__CPROVER_assume(s->op[i] == SCRIPT_OP);
+#endif
 #ifndef TIMERS
 		__CPROVER_assume(s->op[i] != S_TIMEOUT);
 #endif
 		__CPROVER_assume(s->off[i] > -(1 << 20) && s->off[i] < (1 << 20));
-		if (i < s->n && s->op[i] == S_TIMEOUT && s->off[i] > 0) unsat++;
+		if (i < s->n && SOP(s, i) == S_TIMEOUT && s->off[i] > 0) unsat++;
 	}
 	__CPROVER_assume(unsat <= 1);		/* scope: at most one unsatisfied fibre_timeout per dispatch */
 }
@@ -212,17 +222,17 @@ static void do_call_op(const struct call *c, int op)
 			const struct script *s = &c->body;
 			for (int i = 0; i < NSCRIPT; i++) if (i < s->n) {
 				int e = 0;
-				switch (s->op[i]) {
+				switch (SOP(s, i)) {
 				case S_RUN: m_run(s->g[i]); break;
 				case S_RUN_ATOMIC: e = m_run_atomic(s->g[i]); break;
 				case S_KILL: e = m_kill(s->g[i]); break;
 				case S_TIMEOUT: e = m_timeout(m.now + s->off[i]); break;
 				}
 #ifdef ORDER
-				if (s->op[i] != S_TIMEOUT) VT_ASSERT(d_res[i] == e);
+				if (SOP(s, i) != S_TIMEOUT) VT_ASSERT(d_res[i] == e);
 #endif
 #ifdef TIMERS
-				if (s->op[i] == S_TIMEOUT) VT_ASSERT(d_res[i] == e);	/* true exactly when d is not after the time of this pass */
+				if (SOP(s, i) == S_TIMEOUT) VT_ASSERT(d_res[i] == e);	/* true exactly when d is not after the time of this pass */
 #endif
 				(void)e;
 			}
